@@ -1175,7 +1175,7 @@ class BasicReadStatement(BasicStatement):
 
     def basic09_text(self, indent_level: int) -> str:
         return (
-            self.indent_spaces(indent_level)
+            AbstractBasicStatement.basic09_text(self, indent_level)
             + "READ "
             + ", ".join(rhs.basic09_text(indent_level) for rhs in self._rhs_list)
         )
@@ -1185,16 +1185,20 @@ class BasicReadStatement(BasicStatement):
         for rhs in self._rhs_list:
             if isinstance(rhs, BasicVar):
                 rhs.visit(visitor)
+            elif isinstance(rhs, BasicArrayRef):
+                for index in rhs.indices.exp_list:
+                    index.visit(visitor)
 
 
 class BasicInputStatement(BasicStatement):
     def __init__(self, message, rhs_list):
+        super().__init__(None)
         self._message = message
         self._rhs_list = rhs_list
 
     def basic09_text(self, indent_level: int) -> str:
         prefix = (
-            self.indent_spaces(indent_level)
+            AbstractBasicStatement.basic09_text(self, indent_level)
             + "INPUT "
             + self._message.basic09_text(indent_level)
             + ", "
@@ -1210,6 +1214,9 @@ class BasicInputStatement(BasicStatement):
         for rhs in self._rhs_list:
             if isinstance(rhs, BasicVar):
                 rhs.visit(visitor)
+            elif isinstance(rhs, BasicArrayRef):
+                for index in rhs.indices.exp_list:
+                    index.visit(visitor)
 
 
 class BasicVarptrExpression(AbstractBasicExpression):
